@@ -595,10 +595,10 @@ func plans(thorough bool) []plan {
 		{fam: fam("1-level/<=4 entries", 1, 4, 2, 0, true), depth: 3, bounds: b15, intra: true, tsun: true, nobloo: true},
 		{fam: fam("2-level/<=3 entries", 2, 3, 2, 0, true), depth: 3, bounds: b15, intra: true, tsun: true, nobloo: true},
 		{fam: fam("3-level/<=3 entries", 3, 3, 2, 0, true), depth: 3, bounds: b15, intra: true, tsun: true, nobloo: true},
-		{fam: fam("2-level/<=4 entries/<=1 tombstone", 2, 4, 1, 0, true), depth: 3, bounds: b15, tsun: true, nobloo: true},
-		{fam: fam("3-level/<=4 entries/1 tombstone", 3, 4, 1, 1, false), depth: 3, bounds: b15, tsun: true, nobloo: true},
+		{fam: fam("2-level/<=4 entries/<=1 tombstone", 2, 4, 1, 0, false), depth: 3, bounds: b15, tsun: true, nobloo: true},
+		{fam: fam("3-level/<=4 entries/1 tombstone", 3, 4, 1, 1, false), depth: 3, bounds: b5, tsun: true, nobloo: true},
 		{fam: fam("1-level/<=3 entries", 1, 3, 2, 0, true), depth: 4, bounds: b15, tsun: true, nobloo: true},
-		{fam: fam("2-level/<=3 entries/1 tombstone", 2, 3, 1, 1, true), depth: 4, bounds: b5, tsun: true, nobloo: true},
+		{fam: fam("2-level/<=3 entries/1 tombstone", 2, 3, 1, 1, false), depth: 4, bounds: b5, tsun: true, nobloo: true},
 	}
 }
 
@@ -677,7 +677,12 @@ func TestCheck(t *testing.T) {
 					}
 				}
 				if i%211 == 0 {
-					c.Sample(map[string]any{"plan": p.fam.name, "lsm": l.String()})
+					var stream []string
+					for _, e := range view(l, "", "", 0) {
+						stream = append(stream, e.String())
+					}
+					c.Sample(map[string]any{"plan": p.fam.name, "layout": l, "layout_text": l.String(),
+						"expected_stream_unbounded_max_seqnum": stream, "sequences_executed": ts.seqs})
 				}
 			})
 			planNotes = append(planNotes, fmt.Sprintf("%s (%+v) depth %d, %d bound pairs, intra-band snapshots %v, tsun %v, bloom-less rerun %v: %d/%d layouts", p.fam.name, p.fam, p.depth, len(p.bounds), p.intra, p.tsun, p.nobloo, done, n))
